@@ -74,3 +74,8 @@ def months_between(calc, y1, m1, d1, y2, m2, d2):
     n = calc._months_between(a, b)
     at = calc._add_months(a, n)
     return (n, at._year, at._month, at._day)
+
+
+def lemma():
+    """No code: the contract's postcondition is a statement over spec functions only."""
+    return None
